@@ -1049,6 +1049,10 @@ func TestVerifC10(t *testing.T) {
 		inputs = append(inputs, vinput{id: fmt.Sprintf("u%d", i), data: data})
 	}
 	inputs = append(inputs, vinput{id: "longline", data: bytes.Repeat([]byte("permission is hereby granted "), 40000)})
+	// directed: documents with Copyright matches and no tokens, with and without final EOL
+	for i, s := range []string{"Copyright (c) 2020 Foo\n", "// Copyright 2019 Foo Inc.", "2020-01-31\n", "Copyright 2001 a\n\n2020-01-31\n---\n"} {
+		inputs = append(inputs, vinput{id: fmt.Sprintf("notice%d", i), data: []byte(s)})
+	}
 	small := func(th float64) *Classifier {
 		c := NewClassifier(th)
 		c.AddContent("License", "Tiny", "a.txt", []byte("one two three"))
@@ -1084,7 +1088,7 @@ func TestVerifC10(t *testing.T) {
 	for i, in := range inputs {
 		run("full0.8", full, in)
 		for ti, th := range ths {
-			if !vthorough() && (i+ti)%3 != 0 {
+			if !vthorough() && (i+ti)%3 != 0 && !strings.HasPrefix(in.id, "notice") {
 				continue
 			}
 			run(fmt.Sprintf("small%v", th), small(th), in)
